@@ -51,7 +51,7 @@ CLAIMED["C17"] = ("Proof (deductive, all valid inputs) for the conversions this 
   "IPAddressToNgap and IPAddressToString (32/128/160-bit transport layer address, IPv4 first) and the DNN length-value helper, each against spec functions written from TS 23.003 / 24.501 / 38.414; "
   "round-trip lemmas for IP addresses (IPv4, IPv6, dual stack) and DNN.",
   "Trusted: govc, go/ssa, SMT solvers; assumed library contracts: hex.DecodeString, strconv.Atoi, net.ParseIP/To4/To16/IPv4/String with ParseIP(String(a)) = a. "
-  "ProtocolConfigurationOptions Marshal/UnMarshal (a state machine over bytes.Buffer and binary.Read/Write, outside the executor's subset) is covered by a BOUNDED stand-in only (420 option lists against a TS 24.008 reference, labelled bounded); this copy has no inverse functions for PLMN, S-NSSAI and AMF-ID, so 'undone by its inverse' is decided for IP addresses and DNN only.",
+  "ProtocolConfigurationOptions Marshal/UnMarshal: proved (layout per TS 24.008 10.5.6.3 and round trip) for lists of 0..3 units with every identifier, length 0..255 and content, by case split on which units are empty (model of bytes.Buffer / bytes.Reader / binary.Read/Write assumed); longer lists by the BOUNDED stand-in (420 option lists against a TS 24.008 reference, labelled bounded); this copy has no inverse functions for PLMN, S-NSSAI and AMF-ID, so 'undone by its inverse' is decided for IP addresses and DNN only.",
   "DESIGN.md §4 C17")
 
 CLAIMED["C18"] = ("Proof for the command line: stgutg.GetMode returns 1 exactly for an argument vector of length 1, 2 exactly for length 2 with second element \"-t\", 0 otherwise (vectors of length 0..3, all strings symbolic); "
